@@ -65,7 +65,7 @@ fn env_cases(file: &str) -> Value {
         let c = &v["cfg"];
         let ticks: Vec<u32> = c["ticks"].as_array().unwrap().iter().map(|x| x.as_u64().unwrap() as u32).collect();
         let r = guarded(AssertUnwindSafe(|| {
-            let mut env: Box<dyn EnvDyn> = new_env("env", 10, 0, &ticks, c["step"].as_u64().unwrap(), c["trading"].as_bool().unwrap());
+            let mut env: Box<dyn EnvDyn> = new_env("env", 10, c.get("t0").and_then(|x| x.as_u64()).unwrap_or(0), &ticks, c["step"].as_u64().unwrap(), c["trading"].as_bool().unwrap());
             let mut rng = Xoroshiro128StarStar::seed_from_u64(v["seed"].as_u64().unwrap());
             let mut sched = Vec::new();
             for l in v["path"].as_array().unwrap() {
